@@ -33,6 +33,8 @@ type Net struct {
 	WriteErrChoice bool
 	// CloseAfterWrites > 0: the peer closes a connection after that many Write calls on it
 	CloseAfterWrites int
+	// CloseFirstAfterWrites > 0: the same for the first connection only (later ones stay healthy)
+	CloseFirstAfterWrites int
 }
 
 type Ep struct {
@@ -97,6 +99,9 @@ func (e *Ep) Write(b []byte) (int, error) {
 	}
 	e.Recv = append(e.Recv, b...)
 	if e.net.CloseAfterWrites > 0 && e.Writes >= e.net.CloseAfterWrites {
+		e.PeerClosed = true
+	}
+	if e.net.CloseFirstAfterWrites > 0 && e.net.Conns[0] == e && e.Writes >= e.net.CloseFirstAfterWrites {
 		e.PeerClosed = true
 	}
 	return len(b), nil
